@@ -85,6 +85,13 @@ inductive Act where
   gets an empty suspend point and returns `noop_coroutine()`: control is back in whoever resumed the body. A no-op in a
   coroutine that is not a generator body. -/
   | gyield
+  /-- `sp = <make pre ready>; sp << co_await self(); sp << <make post ready>; co_await sp`: the awaited suspend point holds the
+  awaiting coroutine's OWN handle (self.h) behind the handles of `pre` and before those of `post`.
+  `suspend_point::await_suspend` (coroutine mode) pops the last handle for the symmetric transfer, pushes the remaining ones to
+  the ready queue in order, and pushes the awaiting coroutine itself only if its handle was neither the popped one nor among the
+  remaining ones (`me_included`): the awaiting coroutine is resumed exactly once — at once when its handle is the last one (the
+  transfer goes to itself and it is NOT queued), from the queue otherwise. -/
+  | awaitSelf (pre post : List Nat)
   | call (d : Nat)      -- `co_await async`: symmetric transfer into the child
   | join (d : Nat)      -- `co_await` the future returned by an earlier `start d` of the same coroutine
   | fin                 -- `co_return`: `final_awaiter`
@@ -194,6 +201,24 @@ def coAwaitSp (s : State) (c : Nat) (cs : List Nat) (rev : Bool) : State :=
                runs := s.runs ++ [out],
                cur := some out }
 
+/-- `co_await` of a suspend point that holds the awaiting coroutine's own handle between the handles of `pre` and of `post` -/
+def coAwaitSelf (s : State) (c : Nat) (pre post : List Nat) : State :=
+  match (collect (collect s.st pre).1 post).2.getLast? with
+  | none =>
+      -- own handle last: symmetric transfer to the awaiting coroutine itself; it is not queued
+      { s with st := (collect (collect s.st pre).1 post).1,
+               ready := s.ready ++ (collect s.st pre).2,
+               enq := s.enq ++ (collect s.st pre).2,
+               made := s.made ++ (collect s.st pre).2 ++ [c],
+               runs := s.runs ++ [c] }
+  | some out =>
+      { s with st := upd (upd (collect (collect s.st pre).1 post).1 c St.ready) out St.running,
+               ready := s.ready ++ (collect s.st pre).2 ++ [c] ++ (collect (collect s.st pre).1 post).2.dropLast,
+               enq := s.enq ++ (collect s.st pre).2 ++ [c] ++ (collect (collect s.st pre).1 post).2.dropLast,
+               made := s.made ++ (collect s.st pre).2 ++ [c] ++ (collect (collect s.st pre).1 post).2,
+               runs := s.runs ++ [out],
+               cur := some out }
+
 def coPark (s : State) (c : Nat) : State :=
   settle { s with st := upd s.st c St.parked }
 
@@ -289,6 +314,7 @@ def coStep (s : State) (c : Nat) : Act → State
   | Act.start d fut => coStart s c d fut
   | Act.gnext d => coGnext s c d
   | Act.gyield => coGyield s c
+  | Act.awaitSelf pre post => coAwaitSelf s c pre post
   | Act.call d => coCall s c d
   | Act.join d => coJoin s c d
   | Act.fin => coFin s c
